@@ -179,6 +179,37 @@ pub fn iterate_variants(msg: &Message) -> Vec<(String, Vec<(u16, Vec<u8>)>)> {
     out
 }
 
+/// Evaluates `f` on `data` placed at each of the other three residues of its memory address modulo
+/// 4 (a message parsed in place behind a 2-byte TCP length prefix, a demultiplexing byte, in a ring
+/// buffer ...) and returns the first residue whose result differs from `first`.  Decoding is a
+/// function of the bytes, not of where they lie.
+pub fn differs_at_residue<T: PartialEq>(data: &[u8], first: &T, f: impl Fn(&[u8]) -> T) -> Option<(usize, T)> {
+    let len = data.len();
+    let mut buf = vec![0xEEu8; len + 8];
+    let a0 = buf.as_ptr() as usize;
+    let r0 = data.as_ptr() as usize % 4;
+    for r in 0..4usize {
+        if r == r0 {
+            continue;
+        }
+        let s0 = (0..8usize).find(|s| (a0 + s) % 4 == r).unwrap();
+        buf[s0..s0 + len].copy_from_slice(data);
+        let got = f(&buf[s0..s0 + len]);
+        if got != *first {
+            return Some((r, got));
+        }
+    }
+    None
+}
+
+/// What a parse says, in comparable form: header fields and the iterated attributes, or the error.
+pub fn parse_summary(buf: &[u8]) -> Result<(u8, u16, u128, Vec<(u16, Vec<u8>)>), String> {
+    match Message::from_bytes(buf) {
+        Ok(m) => Ok((class_num(m.class()), m.method(), m.transaction_id().into(), iterate(&m, 0).0)),
+        Err(e) => Err(format!("{e:?}")),
+    }
+}
+
 pub fn alg_num(a: IntegrityAlgorithm) -> u16 {
     match a {
         IntegrityAlgorithm::Sha1 => crate::refimpl::wire::MI,
